@@ -12,7 +12,8 @@
 //!  "ss"      toy-scale dyadic set-speed run (seeded generator), all integers:
 //!            links[{len m, elevs[[o m,e/64 m]], hd[[o m, h/256 rad]]}], cars[{n,len,mass,freight,axles,rot,
 //!            bearing/4 N,rolling/1024,davis_b/4096 s/m,cda/16 m2}], train_mass?, c0, consist{units,pdct},
-//!            t[] (1/4 s), v[] (1/2 m/s)
+//!            t[] (1/4 s), v[] (1/2 m/s); optional x0 [m] (front starts mid-route), tinit:"default" (initial clock 0 s
+//!            instead of t[0]), days; consist units of kind conv | bel (avh::build toy units) | hybrid (shipped default)
 //!  "sl"      realistic-scale speed-limited run on a generated single line (tolerance mode)
 //!
 //! Projection (abstraction function) of the toy-scale records — divisions by constants / logged fields only:
